@@ -86,10 +86,13 @@ def run(rep, tier, seed):
     for c in cases:
         items.append({"id": "b%d" % c["id"], "prog": c["prog"],
                       "tag": "builtin %s/%d (%s)" % (c["b"], c["ar"], ",".join(t.split(":")[0] for t in c["tags"]))})
-    if tier == "thorough":
-        ops, ores = progs.generate("GenOps")
-        rep.add_tlc(ores)
-        big = ("int:MAX", "int:2^32", "int:2^62")
+    ops, ores = progs.generate("GenOps")
+    rep.add_tlc(ores)
+    big = ("int:MAX", "int:2^32", "int:2^62")
+    if tier != "thorough":
+        # quick: the operator table thinned out - every 9th case, and every case that pairs a byte with another kind
+        ops = [c for c in ops if c["id"] % 9 == 0 or (("byte" in c["ta"]) != ("byte" in c["tb"]))]
+    if True:
         for c in ops:
             if c["op"] == "*" and (c["ta"] in big or c["tb"] in big) and ("str" in c["ta"] or "str" in c["tb"]):
                 continue
